@@ -23,7 +23,7 @@ from .checks_pipeline import rand_handler
 C18_CLAUSES = ["T_Completes", "T_MetricsDashFree", "T_HeaderWritten", "T_HeaderParses", "T_SubjectsRecovered", "T_GroupsRecovered",
                "T_NoColumnShift", "T_ReadBack", "T_LineCount", "T_RowCells", "T_HeaderText", "T_RowText"]
 C18_DRIFT = ("T_HeaderText", "T_RowText")      # the text form of the file: not prescribed by C18
-C20_CLAUSES = ["T_Completes", "T_Loaded", "T_PerSubject", "T_Summary", "T_OrderIrrelevant", "T_Across", "T_AcrossValues",
+C20_CLAUSES = ["T_Completes", "T_Loaded", "T_PerSubject", "T_PerSubjectAnyOrder", "T_Summary", "T_OrderIrrelevant", "T_Across", "T_AcrossValues",
                "T_QueriesReadOnly"]
 
 
@@ -223,7 +223,7 @@ def rec_c20(table, ng, nm, subjects, workdir: Path, perm, meta=None) -> dict:
     groups = [f"g{g}" for g in range(1, ng + 1)]
     metrics = [f"m{m}" for m in range(1, nm + 1)]
     rec = {"ng": ng, "nm": nm, "ns": ns, "cells": [[cell_record(c[1]) for c in row] for row in table], "out": "ok",
-           "loaded": [], "one": [], "summ": [], "across": [], "summp": [], "summ2": [], "loaded2": [], "acrossvals": [],
+           "loaded": [], "one": [], "onep": [], "colp": [], "summ": [], "across": [], "summp": [], "summ2": [], "loaded2": [], "acrossvals": [],
            "meta": dict(meta or {})}
     rec["meta"]["table"] = [[c[0] for c in row] for row in table]
     shutil.rmtree(workdir, ignore_errors=True)
@@ -280,7 +280,15 @@ def rec_c20(table, ng, nm, subjects, workdir: Path, perm, meta=None) -> dict:
             rec["summ2"] = summaries(st)
             rec["loaded2"] = [[[loaded_record(x) for x in st.get(g, m)] for m in metrics] for g in groups]
             write(workdir / "p.tsv", perm)
-            rec["summp"] = summaries(Panoptica_Statistic.from_file(str(workdir / "p.tsv")))
+            stp = Panoptica_Statistic.from_file(str(workdir / "p.tsv"))
+            rec["summp"] = summaries(stp)
+            # per-subject lookup and the alignment of the columns with the subject names, whatever the row order
+            rec["onep"] = []
+            for s in subjects:
+                d = stp.get_one_subject(s)
+                rec["onep"].append([[loaded_record(d[g][m]) for m in metrics] for g in groups])
+            names_p = list(stp.subjectnames)
+            rec["colp"] = [[[loaded_record(stp.get(g, m)[names_p.index(s)]) for m in metrics] for g in groups] for s in subjects]
     except Exception as e:  # noqa: BLE001
         rec["out"] = "raise"
         rec["meta"]["exception"] = f"{type(e).__name__}: {e}"[:300]
@@ -288,6 +296,8 @@ def rec_c20(table, ng, nm, subjects, workdir: Path, perm, meta=None) -> dict:
         z = summ_record(None)
         rec["loaded"] = rec["loaded"] or [[[TOK("skip")] * ns] * nm] * ng
         rec["one"] = rec["one"] or [[[TOK("skip")] * nm] * ng] * ns
+        rec["onep"] = rec["onep"] or [[[TOK("skip")] * nm] * ng] * ns
+        rec["colp"] = rec["colp"] or [[[TOK("skip")] * nm] * ng] * ns
         rec["summ"] = rec["summ"] or [[z] * nm] * ng
         rec["summp"] = rec["summp"] or [[z] * nm] * ng
         rec["summ2"] = rec["summ2"] or [[z] * nm] * ng
